@@ -111,6 +111,10 @@ m("bp-guarded-digit-index", "C06", "silent", "",
   [("crates/texlang/src/parse/dimen.rs",
     "        if let Some(digit) = digits.get_mut(i) {\n            *digit = d;\n            i += 1;\n        }",
     "        if i < digits.len() {\n            digits[i] = d;\n            i += 1;\n        }")])
+m("c10-section-len-as-i16", "C10", "violation", "serialize_section",
+  [("crates/tfm/src/serialize.rs", "    ((b.len() - start) / 4).try_into().unwrap()", "    ((b.len() - start) / 4) as i16")])
+m("c18-boxnumber-guarded-cast", "C18", "silent", "",
+  [("crates/boxworks/src/lang/convert.rs", "            box_number: self.box_number.value as u8,", "            box_number: if (0..=255).contains(&self.box_number.value) { self.box_number.value as u8 } else { 255 },")])
 
 def sh(c):
     return subprocess.run(c, shell=True, stdout=subprocess.PIPE, stderr=subprocess.STDOUT, text=True)
